@@ -1,4 +1,9 @@
 from verif import Q
+try:
+    import C03_t0_part as _t0
+except Exception as _e:   # the T0-native part needs encoders/t0tool.py
+    _t0 = None
+    _t0_err = repr(_e)
 
 META = {
  "level_text": "Bounded symbolic model checking (CBMC) of the C functions that implement the handshake's authentication mechanisms (reached by #include of the generated ssl_hs_client.c / ssl_hs_server.c): ServerKeyExchange signature check, CertificateVerify check, RSA premaster anti-rollback and random substitution, ECDH(E) bad-point substitution — each from symbolic context fields, with hashing, validator and signature primitives as recording stubs. Partial: message order, ServerHello checks, Finished comparison, fallback SCSV and renegotiation binding are T0 bytecode and outside.",
@@ -12,7 +17,7 @@ META = {
  "outside_claim": ["handshake message order and transcript (T0)", "Finished computation/comparison (T0 + PRF)", "ServerHello version/suite/extension checks (T0)", "TLS_FALLBACK_SCSV (T0)", "certificate chain streaming into the validator (T0)"],
 }
 
-def queries():
+def _base_queries():
     qs = []
     for (pl, sl) in ((5, 6), (1, 1), (9, 3)):
         qs.append(Q("client-verify_SKE_sig-P%d-S%d" % (pl, sl), "C03_client.c", defs=["-DPL=%d" % pl, "-DSL=%d" % sl], unwind=max(80, 70 + pl), timeout=300,
@@ -24,3 +29,14 @@ def queries():
     qs.append(Q("server-do_ecdh", "C03_server.c", units=["src/codec/ccopy.c"], defs=["-DPART=3"], unwind=90, timeout=300, backend="cadical",
                 desc="do_ecdh/ecdh_common: shared secret used iff the key exchange succeeded, random otherwise; wiped; X coordinate up to 33 bytes"))
     return qs
+
+
+def queries():
+    qs = _base_queries()
+    if _t0 is not None:
+        qs = qs + _t0.queries()
+    return qs
+
+if _t0 is not None:
+    META["assumptions"] = list(META.get("assumptions", [])) + list(getattr(_t0, "ASSUMPTIONS", []))
+    META["mutants_tried"] = list(META.get("mutants_tried", [])) + list(getattr(_t0, "MUTANTS", []))
